@@ -35,6 +35,9 @@ type Runner struct {
 	ActHook func(p ctypes.Parser, n *ctypes.Node)
 	// NilRes, if non-nil, selects the productions whose generic action returns nil.
 	NilRes func(prod int32) bool
+	// ResKind, if non-nil, chooses what the generic action returns (see the carrier harness).
+	ResKind func(prod int32) int
+	suspend bool
 }
 
 const fastBudget = 3000   // main-loop + recover ticks before switching to diagnosis
@@ -121,7 +124,11 @@ func (r *Runner) run(toks []int, diagnose bool) (out *Outcome) {
 
 	r.C.SetActHook(r.ActHook)
 	r.C.SetNilRes(r.NilRes)
+	r.C.SetResKind(r.ResKind)
 	r.C.SetTick(func(site int) {
+		if r.suspend {
+			return // a nested parse (RunNested) is not this run's subject
+		}
 		ticks++
 		if site == r.siteMain {
 			out.Steps++
@@ -199,6 +206,7 @@ func (r *Runner) run(toks []int, diagnose bool) (out *Outcome) {
 		r.C.SetTick(nil)
 		r.C.SetActHook(nil)
 		r.C.SetNilRes(nil)
+		r.C.SetResKind(nil)
 		out.Reads = lex.Reads
 		out.Events = p.Events()
 		if x := recover(); x != nil {
@@ -211,6 +219,33 @@ func (r *Runner) run(toks []int, diagnose bool) (out *Outcome) {
 	out.OK = p.Run(lex)
 	out.Incon = false
 	return out
+}
+
+// RunNested parses toks; the action of its k-th reduction (0-based), before it
+// returns, parses inner with a second parser value of the same package - what
+// an include-style action does. It returns the outcome of the outer parse and
+// the verdict and events of the inner one (ran = false if the outer parse had
+// fewer than k+1 reductions).
+func (r *Runner) RunNested(toks []int, k int, inner []int) (out *Outcome, ran, innerOK bool, innerEvents []ctypes.Ev) {
+	n := 0
+	saved := r.ActHook
+	r.ActHook = func(p ctypes.Parser, nd *ctypes.Node) {
+		if r.suspend {
+			return
+		}
+		if n == k {
+			r.suspend = true
+			defer func() { r.suspend = false }()
+			p2 := r.C.NewParser()
+			ran = true
+			innerOK = p2.Run(&ctypes.SliceLexer{Toks: inner})
+			innerEvents = p2.Events()
+		}
+		n++
+	}
+	defer func() { r.ActHook = saved; r.suspend = false }()
+	out = r.Run(toks)
+	return
 }
 
 func trimStack(s string) string {
